@@ -37,11 +37,21 @@ WRITERS = {
                         'ncf2height_pressure',
                         'PseudoNetCDF.camxfiles.height_pressure.Memmap',
                         'height_pressure'),
+    'wind': ('PseudoNetCDF.camxfiles.wind.Write', 'ncf2wind',
+             'PseudoNetCDF.camxfiles.wind.Memmap', 'wind'),
 }
 
 
 class _NC(object):
     pass
+
+
+class _NPProxy(object):
+    def __init__(self, real, array):
+        self._real, self.array = real, array
+
+    def __getattr__(self, k):
+        return getattr(self._real, k)
 
 
 class MetWrite(Obligation):
@@ -63,7 +73,38 @@ class MetWrite(Obligation):
                        'cols': cols, 'start': 'any day of year, any hour'}
 
     def _seq(self):
+        if self.fmt == 'wind':
+            return [x for k in range(self.nz) for x in (('U', k), ('V', k))]
         return layouts.MetLayout.KINDS[self.fmt](self.nz)
+
+    def _expected(self, flags, data):
+        """[(label, [expected words])]: an expected word is an int (bit
+        pattern), ('f', value) or ('i', value) for the typed time/date words"""
+        cells = self.rows * self.cols
+        m = 4 * (cells + 2)
+        out = []
+
+        def bits(cell):
+            return list(struct.unpack('>%di' % cells,
+                                      np.asarray(cell).astype('>f4')
+                                      .tobytes()))
+        for t, (d, hms) in enumerate(flags):
+            yy = d // 1000 % 100 * 1000 + d % 1000
+            hhmm = ('f', hms, 100)
+            if self.fmt == 'wind':
+                out.append(('record[t=%d,header]' % t,
+                            [12, hhmm, ('i', yy, 1), 0, 12]))
+                for var, k in self._seq():
+                    out.append(('record[t=%d,%s,%s]' % (t, var, k),
+                                [4 * cells] + bits(data[var][t, k]) +
+                                [4 * cells]))
+                out.append(('record[t=%d,dummy]' % t, [4, 0, 4]))
+                continue
+            for var, k in self._seq():
+                cell = data[var][t] if k is None else data[var][t, k]
+                out.append(('record[t=%d,%s,%s]' % (t, var, k),
+                            [m, hhmm, ('i', yy, 1)] + bits(cell) + [m]))
+        return out
 
     def _data(self):
         rng = np.random.RandomState(17)
@@ -111,8 +152,24 @@ class MetWrite(Obligation):
         nc.variables = {'TFLAG': tf.view(shim.SymNDArray)}
         for k, v in data.items():
             nc.variables[k] = v.view(shim.SymNDArray)
+        if self.fmt == 'wind':
+            nc.LSTAGGER = np.array(0, dtype='>i4')
+            nc.dimensions = {'LAY': range(self.nz)}
         sink = shim.ByteSink()
         W.open = lambda path, mode='wb': sink
+
+        # arrays the writer creates itself must be able to write to the sink
+        def _arr(real):
+            def f(*a, **k):
+                r = real(*a, **k)
+                if type(r) is np.ndarray:
+                    r = r.view(shim.SymNDArray)
+                return r
+            return f
+        if 'array' in W.__dict__:
+            W.array = _arr(W.__dict__['array'])
+        if 'np' in W.__dict__ and not isinstance(W.np, _NPProxy):
+            W.np = _NPProxy(W.np, _arr(W.np.array))
         import sys
         sys.setprofile(sp.profile())
         try:
@@ -123,42 +180,37 @@ class MetWrite(Obligation):
                             repr(ex)[:200])
                 return
             words = sink.words()
-            cells = self.rows * self.cols
-            seq = self._seq()
-            nrec = self.T * len(seq)
-            ok = words is not None and len(words) == nrec * (cells + 4)
+            exp = self._expected(flags, data)
+            total = sum(len(w) for _, w in exp)
+            ok = words is not None and len(words) == total
             h.claim('file-size', z3.BoolVal(bool(ok)))
             if not ok:
                 return
-            m = 4 * (cells + 2)
             dates, times = [], []
-            for t in range(self.T):
-                d, hms = flags[t]
-                yy = d // 1000 % 100 * 1000 + d % 1000
-                for i, (var, k) in enumerate(seq):
-                    r = t * len(seq) + i
-                    w = words[r * (cells + 4):(r + 1) * (cells + 4)]
-                    lab = 'record[t=%d,%s,%s]' % (t, var, k)
-                    h.claim(lab + ':markers',
-                            z3.BoolVal(w[0] == m and w[-1] == m))
-                    tw, dw = w[1], w[2]
-                    okt = isinstance(tw, tuple) and \
-                        np.dtype(tw[0]) == np.dtype('>f4')
-                    okd = isinstance(dw, tuple) and \
-                        np.dtype(dw[0]) == np.dtype('>i4')
-                    h.claim(lab + ':time', z3.And(
-                        z3.BoolVal(bool(okt)), common.eq_expr(
-                            tw[1] * 100, hms) if okt else z3.BoolVal(False)))
-                    h.claim(lab + ':date', z3.And(
-                        z3.BoolVal(bool(okd)), common.eq_expr(
-                            dw[1], yy) if okd else z3.BoolVal(False)))
-                    cell = data[var][t] if k is None else data[var][t, k]
-                    exp = list(struct.unpack(
-                        '>%di' % cells, cell.astype('>f4').tobytes()))
-                    h.claim(lab + ':payload', z3.BoolVal(w[3:-1] == exp))
-                    if i == 0 and okt and okd:
-                        dates.append(dw[1])
-                        times.append(tw[1])
+            pos = 0
+            for lab, ew in exp:
+                w = words[pos:pos + len(ew)]
+                pos += len(ew)
+                plain_ok = True
+                for got, want in zip(w, ew):
+                    if isinstance(want, tuple):
+                        kind, val, scale = want
+                        dt = np.dtype('>f4' if kind == 'f' else '>i4')
+                        okk = isinstance(got, tuple) and \
+                            np.dtype(got[0]) == dt
+                        part = 'time' if kind == 'f' else 'date'
+                        h.claim(lab + ':' + part, z3.And(
+                            z3.BoolVal(bool(okk)), common.eq_expr(
+                                got[1] * scale, val) if okk
+                            else z3.BoolVal(False)))
+                        if okk:
+                            (times if kind == 'f' else dates).append(got[1])
+                    elif isinstance(got, tuple) or got != want:
+                        plain_ok = False
+                h.claim(lab + ':markers-and-payload', z3.BoolVal(plain_ok))
+            # one (date, time) pair per step for the reader side
+            per = len(dates) // self.T if self.T else 0
+            dates, times = dates[::per or 1], times[::per or 1]
             if len(dates) != self.T:
                 return
             # the reader's reconstruction of the time flags
@@ -214,6 +266,8 @@ class MetWrite(Obligation):
                         else ('TSTEP', 'ROW', 'COL')
                     var = f.createVariable(k, 'f', dims)
                     var[:] = v
+                if self.fmt == 'wind':
+                    f.LSTAGGER = np.array(0, dtype='>i4')
                 try:
                     out = getattr(importlib.import_module(wmod), wfn)(f, path)
                     out.close()
@@ -222,35 +276,35 @@ class MetWrite(Obligation):
                         repr(ex)[:200]
                     return {'obs': {}, 'violations': viol}
                 blob = open(path, 'rb').read()
-                cells = self.rows * self.cols
-                seq = self._seq()
-                m = 4 * (cells + 2)
-                if len(blob) != self.T * len(seq) * (m + 8):
+                exp = self._expected(flags, data)
+                total = sum(len(w) for _, w in exp)
+                if len(blob) != 4 * total:
                     viol['file-size'] = '%d bytes, layout has %d' % (
-                        len(blob), self.T * len(seq) * (m + 8))
+                        len(blob), 4 * total)
                     return {'obs': {}, 'violations': viol}
-                off = 0
-                for t, (dd, hms) in enumerate(flags):
-                    yy = dd // 1000 % 100 * 1000 + dd % 1000
-                    for var, k in seq:
-                        lab = 'record[t=%d,%s,%s]' % (t, var, k)
-                        rec = blob[off:off + m + 8]
-                        off += m + 8
-                        m0, = struct.unpack('>i', rec[:4])
-                        m1, = struct.unpack('>i', rec[-4:])
-                        if (m0, m1) != (m, m):
-                            viol[lab + ':markers'] = '%d/%d, layout %d' % (
-                                m0, m1, m)
-                        tt, di = struct.unpack('>fi', rec[4:12])
-                        if tt * 100 != hms:
-                            viol[lab + ':time'] = '%r written for %d' % (
-                                tt, hms)
-                        if di != yy:
-                            viol[lab + ':date'] = '%r written for %d' % (
-                                di, dd)
-                        cell = data[var][t] if k is None else data[var][t, k]
-                        if rec[12:-4] != cell.astype('>f4').tobytes():
-                            viol[lab + ':payload'] = 'cell bytes differ'
+                words = struct.unpack('>%di' % total, blob)
+                pos = 0
+                for lab, ew in exp:
+                    w = words[pos:pos + len(ew)]
+                    raw = blob[4 * pos:4 * (pos + len(ew))]
+                    pos += len(ew)
+                    plain_ok = True
+                    for i, (got, want) in enumerate(zip(w, ew)):
+                        if isinstance(want, tuple):
+                            kind, val, scale = want
+                            if kind == 'f':
+                                g, = struct.unpack('>f', raw[4 * i:4 * i + 4])
+                                if g * scale != val:
+                                    viol[lab + ':time'] = \
+                                        '%r written for %d' % (g, val)
+                            elif got != val:
+                                viol[lab + ':date'] = '%r written for %d' % (
+                                    got, val)
+                        elif got != want:
+                            plain_ok = False
+                    if not plain_ok:
+                        viol[lab + ':markers-and-payload'] = \
+                            'record words differ from the layout'
                 # library reader on the library-written file
                 try:
                     cls = getattr(importlib.import_module(rmod), rcls)
@@ -285,7 +339,7 @@ def obligations(tier):
     obs = []
     years = (1999, 2004) if tier == 'quick' else (1970, 1999, 2000, 2004,
                                                   2069)
-    for fmt in ('one3d', 'temperature', 'height_pressure'):
+    for fmt in ('one3d', 'temperature', 'height_pressure', 'wind'):
         for y in years:
             obs.append(MetWrite(fmt, y, 2, 2, 1, 2))
         if tier == 'thorough':
